@@ -61,4 +61,73 @@ theorem nat_output_correct' (c : Config) (p q : Packet) (d : Nat) (h : famOn c p
   rw [← e] at h ⊢
   exact nat_output_correct c q d h
 
+/-! ## Small facts about the policy -/
+
+theorem natSpec_ne_loop (c : Config) (p : Packet) : natSpec c p ≠ .loop := by
+  unfold natSpec natOutputSpec natPreroutingSpec
+  repeat' split
+  all_goals simp
+
+theorem mangleSpec_ne_loop (c : Config) (p : Packet) : mangleSpec c p ≠ .loop := by
+  unfold mangleSpec
+  split
+  · rcases mangleOutputSpec_shape c p with ⟨m, h⟩; simp [h]
+  · rcases manglePreroutingSpec_shape c p with h | ⟨m, cm, h | h⟩ <;> simp [h]
+
+theorem specStep_loop (c : Config) (f : Fate) (t : Table) (h : f.loop = false) : (specStep c f t).loop = false := by
+  unfold specStep
+  split
+  · exact h
+  · split
+    · exact h
+    · cases t
+      · simp [h]
+      · have hv := mangleSpec_ne_loop c f.pkt
+        generalize mangleSpec c f.pkt = v at hv ⊢
+        cases v <;> simp_all
+      · have hv := natSpec_ne_loop c f.pkt
+        generalize natSpec c f.pkt = v at hv ⊢
+        cases v <;> simp_all
+      · simp [h]
+
+
+/-- The nat policy only ever accepts the packet unchanged or redirects it. -/
+theorem natSpec_shape (c : Config) (p : Packet) :
+    natSpec c p = .accept p ∨ ∃ port, natSpec c p = .redirect port := by
+  unfold natSpec natOutputSpec natPreroutingSpec
+  repeat' split
+  all_goals first | exact Or.inl rfl | exact Or.inr ⟨_, rfl⟩
+
+
+/-- Shape of the whole-hook policy at PREROUTING for a packet arriving on `lo`: nat is not consulted,
+    so the fate is what mangle decides. -/
+theorem specFate_lo_prerouting (c : Config) (p : Packet) (hh : p.hook = .prerouting) (hlo : p.inIf = "lo")
+    (hv : (p.v6 && !c.enableIPv6) = false) :
+    specFate c p =
+      match manglePreroutingSpec c p with
+      | .accept q => { pkt := q }
+      | .drop => { dropped := true, pkt := p }
+      | .tproxy port q => { tproxy := some port, pkt := q }
+      | .redirect port => { redirect := some port, pkt := p }
+      | .loop => { loop := true, pkt := p } := by
+  simp only [specFate, hv, Bool.false_eq_true, if_false, List.foldl, specStep, Bool.or_self,
+    show (Table.raw == Table.nat) = false from rfl, show (Table.mangle == Table.nat) = false from rfl,
+    Bool.false_and, mangleSpec, hh]
+  rcases manglePreroutingSpec_shape c p with hs | ⟨m, cm, hs | hs⟩
+  · simp [hs]
+  · simp [hs, natConsulted, hlo, hh]
+  · simp [hs, natConsulted, hlo, hh]
+
+
+theorem hasProxyIdentity_iff (c : Config) : hasProxyIdentity c = !c.identities.isEmpty := by
+  unfold hasProxyIdentity Config.identities
+  cases c.proxyUIDs <;> cases c.proxyGIDs <;> simp
+
+
+theorem proxyOwned_iff_identities (c : Config) (p : Packet) :
+    proxyOwned c p = c.identities.any (OwnerId.owns p) := by
+  simp only [proxyOwned, Config.identities, List.any_append, List.any_map, Function.comp_def, OwnerId.owns,
+    List.contains_eq_any_beq]
+
+
 end IstioModel.C20
